@@ -504,3 +504,26 @@ where
         } //end k
     } //end l
 }
+
+// read-only verification accessors
+#[cfg(feature = "verif")]
+impl<T: FloatT> PSDTriangleCone<T> {
+    /// returns copies of (λ, R, Rinv, Hs); matrices column-major with their (rows, cols)
+    #[allow(clippy::type_complexity)]
+    pub fn verif_state(
+        &self,
+    ) -> (
+        Vec<T>,
+        ((usize, usize), Vec<T>),
+        ((usize, usize), Vec<T>),
+        ((usize, usize), Vec<T>),
+    ) {
+        let d = &self.data;
+        (
+            d.λ.clone(),
+            (d.R.size, d.R.data.clone()),
+            (d.Rinv.size, d.Rinv.data.clone()),
+            (d.Hs.size, d.Hs.data.clone()),
+        )
+    }
+}
